@@ -128,6 +128,9 @@ func (prop) Generate(rng *rand.Rand, tier string) []corr.Case {
 			add("views", fmt.Sprintf("views %d %d %d %d", 2+rng.Intn(6), (150+rng.Intn(300))*scale, rng.Intn(2), rng.Intn(2)))
 		}
 	}
+	for i := 0; i < 2*scale; i++ {
+		add("tip-committed", fmt.Sprintf("tipdb %d %d %d %d", []int{0, 2, 9}[rng.Intn(3)], []int{3, 8, 64}[rng.Intn(3)], 3+rng.Intn(10), (150+rng.Intn(200))*scale))
+	}
 	genAtomic(rng, tier, add)
 	return cases
 }
@@ -159,6 +162,8 @@ func runOp(rng *rand.Rand, op string) (fails []corr.Fail, err string) {
 		return ScenarioViews(rng, atoi(w[1]), atoi(w[2]), w[3] == "1", w[4] == "1"), ""
 	case w[0] == "lostupd" && len(w) == 6:
 		return ScenarioLostUpdate(rng, LostUpdateSpec{Reader: w[1], Writer: w[2], View: w[3], Stored: w[4] == "1", Noise: atoi(w[5])}), ""
+	case w[0] == "tipdb" && len(w) == 5:
+		return ScenarioTipCommitted(rng, atoi(w[1]), atoi(w[2]), atoi(w[3]), atoi(w[4])), ""
 	case w[0] == "chaincta" && len(w) == 5:
 		return ScenarioChainCheckThenAct(rng, atoi(w[1]), atoi(w[2]), atoi(w[3]), atoi(w[4])), ""
 	}
@@ -234,6 +239,8 @@ func (prop) Classify(c corr.Case, out []string) string {
 		return fmt.Sprintf("views:snap%s:ro%s:%s", w[3], w[4], res)
 	case "lostupd":
 		return fmt.Sprintf("lostupd:%s-vs-%s:%s", w[1], w[2], res)
+	case "tipdb":
+		return "tip-committed:" + res
 	case "chaincta":
 		return "chaincta:" + res
 	}
